@@ -75,7 +75,8 @@ class Profile:
         self.multiline = True
         self.dups = True            # a keyword may be given twice
         self.valid = False          # honour minItems/maxItems/required (schema-valid document)
-        self.inline_symbol = False  # SYMBOL block inside STYLE / CLASS (known finding KF16)
+        self.inline_symbol = True   # SYMBOL block inside STYLE / CLASS: stored under 'symbols' (consistent with the documented
+        #                             contract, but never schema-valid: known finding KF16 - valid documents switch this off)
         self.exprs = True
         self.includes = True        # INCLUDE as a repeatable keyword (expand_includes=False only)
         self.simple_strings = False
